@@ -1,23 +1,388 @@
 package main
 
-// Discipline obligations (locks, ownership, global frame) hook into the encoder here.
+// Discipline obligations (DESIGN §7.4): immutable fields, lock sets (guarded_by, balance,
+// no self-deadlock), condition variables. Ghost state: G_held / G_rheld : Ref -> Bool.
 
 import (
 	"fmt"
+	"go/types"
 	"strings"
+
 	"golang.org/x/tools/go/ssa"
 )
 
-func (e *enc) storeHook(b *ssa.BasicBlock, i *ssa.Store, l loc, v string) {
-	if l.kind == "field" && e.w.immutableArr(l.arr) {
-		// immutable field: only objects allocated in this activation may be initialised
-		goal := fmt.Sprintf("(>= (birth %s) %s)", l.ref, e.now(e.entry))
-		e.addI("frame", "immutable:"+strings.TrimPrefix(l.arr, "H_"), i, e.reach[b], goal)
+type lockUse struct {
+	term string
+	arr  string // G_held or G_rheld
+}
+
+func (e *enc) heldArr(arr string) string {
+	e.harr(arr, "(Array Ref Bool)")
+	return e.hname(arr)
+}
+
+func (e *enc) setHeld(arr, m string, v bool) {
+	old := e.heldArr(arr)
+	nv := e.bump(arr)
+	e.assume(fmt.Sprintf("(= %s (store %s %s %v))", nv, old, m, v))
+}
+
+// guardOf: lock term protecting field `field` of the object at ref, if the field is declared guarded_by.
+func (e *enc) guardOf(pt types.Type, st *types.Struct, field int, ref string) (string, string, bool) {
+	n, ok := pt.(*types.Named)
+	if !ok || n.Obj().Pkg() == nil {
+		return "", "", false
+	}
+	td := e.w.CS.Types[n.Obj().Pkg().Name()+"."+n.Obj().Name()]
+	if td == nil {
+		return "", "", false
+	}
+	lf, ok := td.GuardedBy[st.Field(field).Name()]
+	if !ok {
+		return "", "", false
+	}
+	for i := 0; i < st.NumFields(); i++ {
+		if st.Field(i).Name() != lf {
+			continue
+		}
+		l := e.structFieldLoc(ref, pt, st, i)
+		switch l.kind {
+		case "field":
+			return e.load(l), lf, true
+		case "struct":
+			return l.ref, lf, true
+		}
+	}
+	return "", "", false
+}
+
+func (e *enc) guardObl(ins ssa.Instruction, R, lock, what string, write bool, ref ...string) {
+	held := fmt.Sprintf("(select %s %s)", e.heldArr("G_held"), lock)
+	goal := held
+	if !write {
+		goal = fmt.Sprintf("(or %s (select %s %s))", held, e.heldArr("G_rheld"), lock)
+	}
+	if len(ref) > 0 {
+		// an object allocated during this activation is not shared yet
+		goal = fmt.Sprintf("(or %s (>= (birth %s) %s))", goal, ref[0], e.now(e.entry))
+	}
+	kind := "read"
+	if write {
+		kind = "write"
+	}
+	e.addI("lock", "guard:"+what+":"+kind, ins, R, goal)
+}
+
+// loadHook: a load through a field address.
+func (e *enc) loadHook(b *ssa.BasicBlock, i *ssa.UnOp, result string) {
+	fa, ok := i.X.(*ssa.FieldAddr)
+	if !ok {
+		return
+	}
+	e.invLoadHook(b, fa)
+	pt := fa.X.Type().Underlying().(*types.Pointer).Elem()
+	st := pt.Underlying().(*types.Struct)
+	ref := e.val(fa.X)
+	if e.localAlloc[ref] {
+		return
+	}
+	lock, _, ok := e.guardOf(pt, st, fa.Field, ref)
+	if !ok {
+		return
+	}
+	what := typeShort(pt) + "." + st.Field(fa.Field).Name()
+	e.guardObl(i, e.reach[b], lock, what, false, ref)
+	// containers stored in guarded fields are guarded data
+	switch i.Type().Underlying().(type) {
+	case *types.Map, *types.Slice:
+		e.taint[i] = [2]string{lock, what}
 	}
 }
 
-func (e *enc) mapWriteHook(b *ssa.BasicBlock, ins ssa.Instruction, m string) {}
+func typeShort(t types.Type) string {
+	return types.TypeString(t, qualName)
+}
 
-func (e *enc) callHook(ins ssa.Instruction, key string, callee *ssa.Function, R string) {}
+func (e *enc) storeHook(b *ssa.BasicBlock, i *ssa.Store, l loc, v string) {
+	R := e.reach[b]
+	if l.kind == "field" && e.w.immutableArr(l.arr) && !e.localAlloc[l.ref] {
+		goal := fmt.Sprintf("(>= (birth %s) %s)", l.ref, e.now(e.entry))
+		e.addI("frame", "immutable:"+strings.TrimPrefix(l.arr, "H_"), i, R, goal)
+	}
+	if l.kind == "field" && e.w.stableArr(l.arr) && !e.localAlloc[l.ref] {
+		okW := e.fc != nil && e.fc.Opts["setup-writer"] != ""
+		o := e.addI("own", "stable-write:"+strings.TrimPrefix(l.arr, "H_"), i, R, fmt.Sprint(okW))
+		o.Struct = true
+		o.Note = "a field declared stable may be written only on an object fresh in the activation, or in a function declared setup-writer (assumption: its argument is not shared yet)"
+		if okW {
+			e.assumptions[e.key+" writes the stable field "+l.arr+" of an object that is assumed not to be shared yet"] = true
+		}
+	}
+	if fa, ok := i.Addr.(*ssa.FieldAddr); ok {
+		e.invStoreHook(fa)
+		pt := fa.X.Type().Underlying().(*types.Pointer).Elem()
+		st := pt.Underlying().(*types.Struct)
+		ref := e.val(fa.X)
+		if !e.localAlloc[ref] {
+			if lock, _, ok := e.guardOf(pt, st, fa.Field, ref); ok {
+				e.guardObl(i, R, lock, typeShort(pt)+"."+st.Field(fa.Field).Name(), true, ref)
+			}
+		}
+	}
+	if ia, ok := i.Addr.(*ssa.IndexAddr); ok {
+		if t, ok := e.taint[ia.X]; ok {
+			e.guardObl(i, R, t[0], t[1]+"[]", true)
+		}
+	}
+}
 
-func (e *enc) returnHook(b *ssa.BasicBlock, r *ssa.Return, R string) {}
+func (e *enc) mapWriteHook(b *ssa.BasicBlock, ins ssa.Instruction, m string) {
+	var mv ssa.Value
+	switch x := ins.(type) {
+	case *ssa.MapUpdate:
+		mv = x.Map
+	case ssa.CallInstruction:
+		if len(x.Common().Args) > 0 {
+			mv = x.Common().Args[0]
+		}
+	}
+	if t, ok := e.taint[mv]; ok {
+		e.guardObl(ins, e.reach[b], t[0], t[1]+"[]", true)
+	}
+}
+
+// containerReadHook: Lookup / Range / element load on a container that lives in a guarded field.
+func (e *enc) containerReadHook(b *ssa.BasicBlock, ins ssa.Instruction, c ssa.Value) {
+	if t, ok := e.taint[c]; ok {
+		e.guardObl(ins, e.reach[b], t[0], t[1]+"[]", false)
+	}
+}
+
+var syncLockCalls = map[string]string{
+	"(*sync.Mutex).Lock": "lock", "(*sync.RWMutex).Lock": "lock",
+	"(*sync.Mutex).Unlock": "unlock", "(*sync.RWMutex).Unlock": "unlock",
+	"(*sync.RWMutex).RLock": "rlock", "(*sync.RWMutex).RUnlock": "runlock",
+	"(*sync.Cond).Wait": "wait", "(*sync.Cond).Signal": "signal", "(*sync.Cond).Broadcast": "signal",
+}
+
+// syncCall encodes the sync primitives natively. Returns true if the call was handled.
+func (e *enc) syncCall(ins ssa.Instruction, key string, args []string, argVals []ssa.Value, R string) bool {
+	kind, ok := syncLockCalls[key]
+	if !ok {
+		return false
+	}
+	m := args[0]
+	if !e.localAlloc[m] {
+		e.addI("safe", "nil", ins, R, fmt.Sprintf("(not (= %s 0))", m))
+	}
+	held := func() string { return fmt.Sprintf("(select %s %s)", e.heldArr("G_held"), m) }
+	rheld := func() string { return fmt.Sprintf("(select %s %s)", e.heldArr("G_rheld"), m) }
+	switch kind {
+	case "lock":
+		e.addI("lock", "no-self-deadlock", ins, R, fmt.Sprintf("(and (not %s) (not %s))", held(), rheld()))
+		e.interference()
+		e.setHeld("G_held", m, true)
+		e.lockUses = append(e.lockUses, lockUse{m, "G_held"})
+	case "unlock":
+		e.addI("lock", "unlock-held", ins, R, held())
+		e.setHeld("G_held", m, false)
+		e.lockUses = append(e.lockUses, lockUse{m, "G_held"})
+	case "rlock":
+		e.addI("lock", "no-self-deadlock", ins, R, fmt.Sprintf("(not %s)", held()))
+		e.interference()
+		e.setHeld("G_rheld", m, true)
+		e.lockUses = append(e.lockUses, lockUse{m, "G_rheld"})
+	case "runlock":
+		e.addI("lock", "unlock-held", ins, R, rheld())
+		e.setHeld("G_rheld", m, false)
+		e.lockUses = append(e.lockUses, lockUse{m, "G_rheld"})
+	case "wait", "signal":
+		// c.L is an interface holding the *Mutex / *RWMutex
+		condT := argVals[0].Type().Underlying().(*types.Pointer).Elem()
+		cst := condT.Underlying().(*types.Struct)
+		var lterm string
+		for i := 0; i < cst.NumFields(); i++ {
+			if cst.Field(i).Name() == "L" {
+				l := e.structFieldLoc(m, condT, cst, i)
+				lterm = "(iptr " + e.load(l) + ")"
+			}
+		}
+		if lterm == "" {
+			return false
+		}
+		hl := fmt.Sprintf("(select %s %s)", e.heldArr("G_held"), lterm)
+		if kind == "wait" {
+			e.addI("cond", "wait-holds-L", ins, R, hl)
+			e.condWaitCheck(ins, m, lterm, R)
+			e.interference() // the lock is released while waiting
+		} else {
+			e.addI("cond", "signal-under-L", ins, R, hl)
+		}
+	}
+	return true
+}
+
+// interference: other threads may have changed everything shared; fields declared stable keep their value.
+func (e *enc) interference() {
+	e.havocHeap(func(a string) bool { return e.w.stableArr(a) })
+	if e.rec != nil && e.curInstr != nil {
+		e.rec.writes[e.curInstr] = append(e.rec.writes[e.curInstr], "*")
+	}
+}
+
+// condWaitCheck: structural part of the wait discipline, see cond.go.
+func (e *enc) condWaitCheck(ins ssa.Instruction, c, lterm, R string) {}
+
+func (e *enc) callHook(ins ssa.Instruction, key string, callee *ssa.Function, R string) {
+	if len(e.invTouched) > 0 {
+		if callee == nil || callee.Pkg != nil && e.w.InRepo[callee.Pkg] {
+			e.invLeaveObls(ins, R)
+			e.invTouched = nil
+		}
+	}
+}
+
+// returnHook: lock balance — every lock this function touched is in the state it was found in.
+func (e *enc) returnHook(b *ssa.BasicBlock, r *ssa.Return, R string) {
+	e.invReturnObls(r, R)
+	seen := map[string]bool{}
+	for _, u := range e.lockUses {
+		k := u.arr + u.term
+		if seen[k] {
+			continue
+		}
+		seen[k] = true
+		e.harr(u.arr, "(Array Ref Bool)")
+		goal := fmt.Sprintf("(= (select %s %s) (select %s %s))", e.hname(u.arr), u.term, e.hnameIn(u.arr, e.entry), u.term)
+		e.addI("lock", "balance", r, R, goal)
+	}
+}
+
+// ---- type invariants (one-object invariants over the object's own fields) ----
+
+func selfFields(ex CExpr, out map[string]bool) {
+	switch x := ex.(type) {
+	case *CSel:
+		if id, ok := x.X.(*CIdent); ok && id.Name == "self" {
+			out[x.Sel] = true
+		}
+		selfFields(x.X, out)
+	case *CIndex:
+		selfFields(x.X, out)
+		selfFields(x.I, out)
+	case *CSlice:
+		selfFields(x.X, out)
+	case *CCall:
+		for _, a := range x.Args {
+			selfFields(a, out)
+		}
+	case *CUnary:
+		selfFields(x.X, out)
+	case *CBinary:
+		selfFields(x.X, out)
+		selfFields(x.Y, out)
+	case *CQuant:
+		selfFields(x.Body, out)
+	}
+}
+
+func (e *enc) typeDeclOf(pt types.Type) *TypeDecl {
+	n, ok := pt.(*types.Named)
+	if !ok || n.Obj().Pkg() == nil {
+		return nil
+	}
+	return e.w.CS.Types[n.Obj().Pkg().Name()+"."+n.Obj().Name()]
+}
+
+// invTerm instantiates invariant c of type pt for the object at ref in state st.
+func (e *enc) invTerm(c Clause, pt types.Type, ref string, st hstate) (string, error) {
+	env := e.newEnv()
+	if n, ok := pt.(*types.Named); ok && n.Obj().Pkg() != nil {
+		env.pkg = n.Obj().Pkg().Name()
+	}
+	env.st, env.old = st, e.entry
+	env.vars["self"] = cval{ref, "Ref", types.NewPointer(pt)}
+	return env.boolTerm(c.Expr)
+}
+
+// invLoadHook: loading a field that an invariant of the type talks about brings the invariant in.
+func (e *enc) invLoadHook(b *ssa.BasicBlock, fa *ssa.FieldAddr) {
+	pt := fa.X.Type().Underlying().(*types.Pointer).Elem()
+	td := e.typeDeclOf(pt)
+	if td == nil || len(td.Invs) == 0 {
+		return
+	}
+	ref := e.val(fa.X)
+	if e.localAlloc[ref] || e.invBusy {
+		return
+	}
+	fname := pt.Underlying().(*types.Struct).Field(fa.Field).Name()
+	for _, c := range td.Invs {
+		fs := map[string]bool{}
+		selfFields(c.Expr, fs)
+		if !fs[fname] {
+			continue
+		}
+		k := c.Label + "@" + ref + fmt.Sprint(e.heap)
+		if e.invDone[k] {
+			continue
+		}
+		e.invDone[k] = true
+		e.invBusy = true
+		t, err := e.invTerm(c, pt, ref, e.heap)
+		e.invBusy = false
+		if err != nil {
+			e.contractError(c, err)
+			continue
+		}
+		e.assumeAt(e.reach[b], fmt.Sprintf("(=> (not (= %s 0)) %s)", ref, t))
+	}
+}
+
+// invStoreHook remembers objects whose invariant fields were written; checked at every return.
+func (e *enc) invStoreHook(fa *ssa.FieldAddr) {
+	pt := fa.X.Type().Underlying().(*types.Pointer).Elem()
+	td := e.typeDeclOf(pt)
+	if td == nil || len(td.Invs) == 0 {
+		return
+	}
+	fname := pt.Underlying().(*types.Struct).Field(fa.Field).Name()
+	for _, c := range td.Invs {
+		fs := map[string]bool{}
+		selfFields(c.Expr, fs)
+		if fs[fname] {
+			ref := e.val(fa.X)
+			for _, t := range e.invTouched {
+				if t.ref == ref {
+					return
+				}
+			}
+			e.invTouched = append(e.invTouched, invObj{ref, pt, e.reach[fa.Block()]})
+			return
+		}
+	}
+}
+
+type invObj struct {
+	ref string
+	pt  types.Type
+	at  string // reach predicate of the block that wrote the object
+}
+
+// invLeaveObls: control leaves the function (return or call): every object whose invariant fields
+// were written since the last such point must satisfy its invariant.
+func (e *enc) invLeaveObls(ins ssa.Instruction, R string) {
+	for _, t := range e.invTouched {
+		td := e.typeDeclOf(t.pt)
+		for _, c := range td.Invs {
+			term, err := e.invTerm(c, t.pt, t.ref, e.heap)
+			if err != nil {
+				e.contractError(c, err)
+				continue
+			}
+			e.addI("inv", "type:"+td.Type+":"+c.Label, ins, R, fmt.Sprintf("(=> %s %s)", t.at, term))
+		}
+	}
+}
+
+func (e *enc) invReturnObls(r *ssa.Return, R string) { e.invLeaveObls(r, R) }
